@@ -284,6 +284,9 @@ class BurstInterp(Interp):
                 await self.teardown()
                 return
             final[n] = tuple((g["uid"], g["flags"]) for g in p["msgs"])
+        if getattr(self, "client_dropped", False):
+            await self.teardown()
+            return
         seqs = [per_session[s] for s in sorted(per_session)]
         self.C("c10_serializability_search")
         found, explored = search(s0, seqs, final)
@@ -337,7 +340,13 @@ class BurstInterp(Interp):
         self.C("c10_progress")
         self.ctx.sig(sess.sid, k, r.status)
         if r.status is None:
-            if not sess.bye:
+            if r.closed and (self.prog.get("knobs") or {}).get("sock_buf"):
+                # behind a small socket buffer and a slow link a push of the server can take longer than its own 2 s
+                # limit (IMAPClientProxy.push): it then drops that client, by design. What the client had in flight may
+                # or may not have been executed - a fault of this configuration, nothing is demanded of this run.
+                self.ctx.probe("client_dropped_by_push_timeout")
+                self.client_dropped = True
+            elif not sess.bye:
                 self.V("C10", "starvation", session=sess.sid, cmd=r.line[:80], waited=round(lat, 1), closed=r.closed, waitfor=self.waitfor_picture())
             return None
         if lat >= PROMPT_BOUND or "Command timed out" in (r.text or ""):
